@@ -163,6 +163,13 @@ pub fn clear_column(path: &Path, column: ColId) -> Result<()> {
 		return Err(Error::Migration("Invalid column index".into()))
 	}
 
+	// Replay and remove pending write-ahead logs first (as the other column operations do):
+	// records left in a log would otherwise be re-applied to the cleared column on the next open.
+	let mut options = Options::with_columns(path, meta.columns.len() as u8);
+	options.columns = meta.columns;
+	options.salt = Some(meta.salt);
+	drop(Db::open(&options)?);
+
 	crate::column::Column::drop_files(column, path.to_path_buf())?;
 
 	Ok(())
